@@ -240,7 +240,7 @@ func C07(c *Ctx) {
 	if fn := c.fn("R07.3", execPrefix+"applyTx"); fn != nil {
 		isCounter := callToMethod("AddInterchainCounter")
 		// receipt.Status tests
-		okEdges := condEdges(fn, func(f core.Fact, ifi *ssa.If) (bool, int) {
+		okPick := func(f core.Fact, ifi *ssa.If) (bool, int) {
 			if f.Kind == core.FEqConst && f.Field == "Status" {
 				// Receipt_SUCCESS = 0, Receipt_FAILED = 1
 				switch f.Const {
@@ -265,8 +265,24 @@ func C07(c *Ctx) {
 				}
 			}
 			return false, 0
-		})
+		}
+		okEdges := condEdges(fn, okPick)
 		n := c.behindEdges("R07.3", "applyTx", fn, okEdges, isCounter, "receipt known successful", "AddInterchainCounter")
+		// the feeding moved into an executor helper that receives the receipt: the same obligation inside the helper,
+		// unless the call itself already lies behind a success edge
+		for _, call := range core.Calls(fn) {
+			g := core.StaticCallee(call)
+			if g == nil || g == fn || len(g.Blocks) == 0 || core.PkgOf(g) != core.PkgOf(fn) || len(sites(g, isCounter)) == 0 {
+				continue
+			}
+			rs := core.Reach([]core.Point{core.EntryOf(fn)}, nil, core.CutOf(okEdges))
+			if !rs.Has(call) {
+				n += len(sites(g, isCounter))
+				r.OK("R07.3", "applyTx: "+g.Name()+" behind receipt known successful", c.P.Pos(call.Pos()), "the helper that feeds the interchain counter is only called across a success edge")
+				continue
+			}
+			n += c.behindEdges("R07.3", g.Name(), g, condEdges(g, okPick), isCounter, "receipt known successful", "AddInterchainCounter")
+		}
 		r.Floor("R07.3", "interchain counter feeds", n, 1)
 	}
 
